@@ -2,7 +2,7 @@
    abstract-geometry hypotheses of the pdffit / discus no-drift theorems have a model (cubic lattice). *)
 From Coq Require Import List Bool Arith NArith ZArith Lia String.
 From Coq Require Import Ascii.
-From DS Require Import Base.C04_Text Base.C04_Decimal Model.C04_Fmt Gen.C04_FmtSpecs Model.C04_Xyz Model.C04_Pdffit Model.C04_Discus Model.C04_Pdb.
+From DS Require Import Base.C04_Text Base.C04_Decimal Model.C04_Fmt Gen.C04_FmtSpecs Model.C04_Xyz Model.C04_Pdffit Model.C04_Discus Model.C04_Pdb Model.C04_Xcfg.
 From DS Require Import Proofs.C04_Pdffit Proofs.C04_Discus Proofs.C04_Pdb.
 Import ListNotations.
 
@@ -79,3 +79,21 @@ Proof.
   unfold zdec, dnorm, ex_uof, uint, quantN. cbn [dmag dexp dneg normN Nat.add Nat.leb Nat.sub]. rewrite pow10_0, N.mul_1_r, N2Z.inj_abs_N.
   destruct (z <? 0)%Z eqn:E; [apply Z.ltb_lt in E|apply Z.ltb_ge in E]; lia.
 Qed.
+
+(* xcfg: two elements (the second repeated: one mass/element header for two atoms), partial occupancy, one anisotropic atom
+   with U12 = 0 for every atom (the U12 column is dropped, U13/U23 kept), a kept auxiliary "charge", a negative H0 entry *)
+Definition ex_cstru : cstru :=
+  CStru (ex_d false 2 0)
+        ((ex_d false 51 1, ex_d false 0 0, ex_d false 0 0), (ex_d false 0 0, ex_d false 62 1, ex_d false 0 0),
+         (ex_d true 1889378 6, ex_d false 0 0, ex_d false 70512345678 10))
+        [s"charge"]
+        [CAtom (s"Zr") (ex_d false 5 2, ex_d false 125 3, ex_d false 15 2) (ex_d false 1 0)
+               ((ex_d false 11 3, ex_d false 9 3, ex_d false 13 3), (ex_d false 0 0, ex_d false 25 4, ex_d false 0 0)) true [ex_d false 4 0];
+         CAtom (s"O") (ex_d false 3 1, ex_d false 125 3, ex_d false 4 1) (ex_d false 5 1)
+               ((ex_d false 15 3, ex_d false 15 3, ex_d false 15 3), (ex_d false 0 0, ex_d false 0 0, ex_d false 0 0)) false [ex_d true 2 0];
+         CAtom (s"O") (ex_d false 123456789 9, ex_d false 999999996 9, ex_d false 0 0) (ex_d false 1 0)
+               ((ex_d false 15 3, ex_d false 15 3, ex_d false 15 3), (ex_d false 0 0, ex_d false 0 0, ex_d true 31 4)) false [ex_d true 2 0]].
+Example repr_xcfg_example : repr_xcfg ex_cstru = true /\ exists t, write_xcfg ex_cstru = Some t.
+Proof. split; [vm_compute; reflexivity|]. eexists. vm_compute. reflexivity. Qed.
+Example rt_xcfg_example : match write_xcfg ex_cstru with Some t => read_xcfg t | None => None end = Some (canon_xcfg ex_cstru).
+Proof. vm_compute. reflexivity. Qed.
